@@ -391,3 +391,10 @@ if __name__ == "__main__":
     if "--dump" in sys.argv:
         for k in sorted(sc):
             print(k)
+    if "--diff" in sys.argv:          # what a maintainer of the pinned file has to (re)classify by hand
+        new, gone = compare(sc, load_pinned()["sites"])
+        for k in new:
+            print("NEW ", k)
+        for k in gone:
+            print("GONE", k)
+        print(f"{len(new)} new, {len(gone)} gone")
